@@ -56,9 +56,12 @@ def cut_layouts(s, palette, max_cuts=2):
 def self_check(ctx):
     """the alphabet really has the three width classes under the live cwcwidth, and \\s agrees with str.isspace on
     the whitespace used"""
+    import lib
     ws = (wc(NARROW), wc(WIDE), wc(COMB))
     if ws != (1, 2, 0):
-        ctx.note("live cwcwidth gives widths %r for the alphabet (narrow, wide, combining); expected (1, 2, 0)" % (ws,))
+        # a degenerate alphabet must not silently turn the enumeration into an ASCII-only run
+        raise lib.InfraError("live cwcwidth gives widths %r for the alphabet (narrow 'a', wide U+FF25, combining U+0301); "
+                             "expected (1, 2, 0): the check cannot exercise double-width/zero-width characters" % (ws,))
     return ws
 
 
